@@ -113,18 +113,49 @@ Proof. vm_compute. reflexivity. Qed.
 (** * The whole connection: both automata composed through a link (Eio/HeartbeatLink.v). *)
 From SioV Require Import Eio.HeartbeatLink Eio.HeartbeatLinkProofs.
 
-(** Never kill a live one.  If every ping is delivered within Ld and answered (pong delivered)
-    within Lu of that, with Ld + Lu + 2D < T, then in EVERY run of the composed system - any number
-    of heartbeat rounds (any length of idleness), any slack schedule, any variation of the delays
-    below their bounds, application traffic at any phase (SApp/CApp steps anywhere) - neither the
-    server loop nor the client watchdog ever takes its timeout branch, and neither side is closed. *)
+(** Never kill a live one.  If every ping reaches the client within Ld of being written - on a
+    poll, on the websocket, or carried over from the polling queue to the new transport by an
+    upgrade - and is answered (pong delivered) within Lu of that, with Ld + Lu + 2D < T, then in
+    EVERY run of the composed system - any number of heartbeat rounds (any length of idleness), any
+    slack schedule, any variation of the delays below their bounds, application traffic at any phase
+    (SApp/CApp/XSend steps anywhere), transport swaps (XSwap) at ANY moment relative to the ping
+    schedule - neither the server loop nor the client watchdog ever takes its timeout branch, and
+    neither side is closed.  The only thing required of the carry-over filter is that it keeps pings. *)
 Theorem C14_live_never_killed : forall c l, cfg_ok c ->
   0 <= lDown l /\ 0 <= lUp l /\ lDown l + lUp l + 2 * cD c < cT c ->
+  (forall s, lKeep l (DPing s) = true) ->
   forall start evs t_end st,
   xvalid c l start evs t_end = Some st ->
   Forall (fun te => is_timeout (snd te) = false) evs
   /\ s_reason (xs st) = None /\ c_reason (xc st) = None.
 Proof. exact live_never_killed. Qed.
+
+(** The filter of the code (serverSocket.upgradeTo forwards everything but NOOP) keeps pings. *)
+Theorem C14_code_carry_over_keeps_pings : forall s, keep_code (DPing s) = true.
+Proof. reflexivity. Qed.
+
+(** A carry-over that forwards only messages loses a ping queued on long-polling when the swap
+    happens (no poll pending between the ping at 1000 and the upgrade at 1500): the server then
+    closes a live peer with "ping timeout" at 1000 + T.  (The independent mutant
+    C14-ind1-queued-ping-dropped-at-upgrade; replayed live by the upgrade-sweep scenarios.) *)
+Theorem C14_swap_dropping_pings_kills_live :
+  exists l evs st,
+    xvalid (mkCfg 1000 2000 0 true) l 0 evs 3000 = Some st /\
+    lDown l + lUp l + 2 * 0 < 2000 /\
+    s_reason (xs st) = Some PingTimeout.
+Proof.
+  exists (mkLink 600 100 (fun p => match p with DMsg => true | _ => false end)),
+    [(1000, XS SWake); (1500, XSwap); (3000, XS STimeout)].
+  eexists. split; [vm_compute; reflexivity|]. split; [simpl; lia|reflexivity].
+Qed.
+
+(** ... while with the code's filter the same schedule delivers the ping after the swap. *)
+Example C14_example_swap_around_ping :
+  match xvalid (mkCfg 1000 2000 0 true) (mkLink 600 100 keep_code) 0
+         [(900, XSend DNoop); (1000, XS SWake); (1200, XSend DMsg); (1500, XSwap); (1501, XDeliver);
+          (1501, XC CRearm); (1502, XDeliver); (1503, XDeliverPong); (1503, XS STake)] 2000
+  with Some st => match s_reason (xs st) with None => true | _ => false end | None => false end = true.
+Proof. vm_compute. reflexivity. Qed.
 
 (** "Every ping answered within < T - D" (a bound on the round trip alone) is NOT enough for the
     client side: with I = T = 1000, D = 0, the first ping delivered at once and its pong after 800,
@@ -137,8 +168,8 @@ Theorem C14_live_rtt_bound_alone_refuted :
     rtt_within (cT c - cD c - 1) evs t_end = true /\
     c_reason (xc st) = Some PingTimeout.
 Proof.
-  exists (mkCfg 1000 1000 0 true), (mkLink 800 800), 0,
-    [(1000, XS SWake); (1000, XDeliverPing); (1000, XC CRearm); (1800, XDeliverPong);
+  exists (mkCfg 1000 1000 0 true), (mkLink 800 800 keep_code), 0,
+    [(1000, XS SWake); (1000, XDeliver); (1000, XC CRearm); (1800, XDeliverPong);
      (1800, XS STake); (2800, XS SWake); (3000, XC CTimeout)], 3000.
   eexists. split; [unfold cfg_ok; simpl; lia|]. split; [vm_compute; reflexivity|].
   split; vm_compute; reflexivity.
@@ -146,9 +177,9 @@ Qed.
 
 (** The hypotheses of C14_live_never_killed are satisfiable: four rounds with varying delays. *)
 Example C14_example_live :
-  match xvalid (mkCfg 1000 1000 20 true) (mkLink 400 400) 0
-         [(1010, XS SWake); (1300, XDeliverPing); (1305, XC CRearm); (1500, XS SApp); (1650, XDeliverPong);
-          (1660, XS STake); (2670, XS SWake); (2670, XDeliverPing); (2675, XC CRearm); (2680, XDeliverPong);
-          (2690, XS STake); (3000, XC CApp); (3700, XS SWake); (4100, XDeliverPing); (4110, XC CRearm); (4500, XDeliverPong)] 4510
+  match xvalid (mkCfg 1000 1000 20 true) (mkLink 400 400 keep_code) 0
+         [(1010, XS SWake); (1300, XDeliver); (1305, XC CRearm); (1500, XS SApp); (1650, XDeliverPong);
+          (1660, XS STake); (2670, XS SWake); (2670, XDeliver); (2675, XC CRearm); (2680, XDeliverPong);
+          (2690, XS STake); (3000, XC CApp); (3700, XS SWake); (4100, XDeliver); (4110, XC CRearm); (4500, XDeliverPong)] 4510
   with Some st => true | None => false end = true.
 Proof. vm_compute. reflexivity. Qed.
